@@ -838,40 +838,45 @@ fn c04_limits(input: &Input, obs: &mut Obs) -> Result<(), Fail> {
     Ok(())
 }
 
+/// a complete bodiless request of exactly `n` bytes, if one exists (n = 18 or n >= 24)
+pub fn exact_request(n: usize) -> Option<Vec<u8>> {
+    let base = b"GET / HTTP/1.1\r\n";
+    if n == base.len() + 2 {
+        let mut v = base.to_vec();
+        v.extend_from_slice(b"\r\n");
+        return Some(v);
+    }
+    // each pad header "X: ppp\r\n" costs 5 + pad bytes, pad <= 800
+    if n < base.len() + 2 + 6 {
+        return None;
+    }
+    let mut v = base.to_vec();
+    let mut rest = n - base.len() - 2;
+    while rest > 0 {
+        let (big, chunk) = if buf_size() >= 1024 { (900, 805) } else { (buf_size(), buf_size() - 6) };
+        let take = if rest > big { chunk } else { rest };
+        if take < 6 {
+            // cannot happen: rest > 900 leaves >= 95
+            return None;
+        }
+        v.extend_from_slice(b"X: ");
+        v.extend(std::iter::repeat(b'y').take(take - 5));
+        v.extend_from_slice(b"\r\n");
+        rest -= take;
+    }
+    v.extend_from_slice(b"\r\n");
+    debug_assert_eq!(v.len(), n);
+    Some(v)
+}
+
 /// params = [kind(0 request line,1 header line), line length incl CRLF, start offset (bytes of a preceding request), mode]
 fn c04_lines(input: &Input, obs: &mut Obs) -> Result<(), Fail> {
     let p = input.params();
     let (kind, len, off, mode) = (p[0], p[1] as usize, p[2] as usize, p[3]);
     let mut stream = Vec::new();
-    // preceding complete request of exactly `off` bytes (off == 0: none). Smallest is 18+.
-    if off > 0 {
-        let head = format!("PUT / HTTP/1.1\r\nContent-Length: {}\r\n\r\n", 0);
-        let min = head.len();
-        if off <= min + 4 {
-            // too short to build: use a header pad instead
-            let base = b"GET / HTTP/1.1\r\n\r\n";
-            stream.extend_from_slice(base);
-        } else {
-            // find k with len(head(k)) + k == off
-            let mut k = off - min;
-            loop {
-                let h = format!("PUT / HTTP/1.1\r\nContent-Length: {}\r\n\r\n", k);
-                if h.len() + k == off {
-                    stream.extend_from_slice(h.as_bytes());
-                    stream.extend(std::iter::repeat(b'b').take(k));
-                    break;
-                }
-                if h.len() + k > off {
-                    k -= 1;
-                } else {
-                    // cannot hit exactly (digit count change): pad with a header
-                    let h2 = format!("PUT / HTTP/1.1\r\nX: {}\r\nContent-Length: {}\r\n\r\n", "y".repeat(off - h.len() - k - 6), k);
-                    stream.extend_from_slice(h2.as_bytes());
-                    stream.extend(std::iter::repeat(b'b').take(k));
-                    break;
-                }
-            }
-        }
+    // preceding complete request of exactly `off` bytes (none when that is impossible)
+    if let Some(pre) = exact_request(off) {
+        stream.extend_from_slice(&pre);
     }
     let line_start = stream.len();
     if kind == 0 {
